@@ -1,12 +1,74 @@
 CONFIG = dict(
         level='proof',
         streams=[dict(harness='c17', driver='c17', shrink_field=None)],
-        rule='result values of BurndownAnalysis / DevsAnalysis / CouplesAnalysis built through verif constructors, written with the real '
-             'Serialize(result, true, w), re-read as a protobuf message, decoded with the real Deserialize, and printed with Serialize(result, false, w).',
-        exhaustive_note='',
-        assumptions=[],
-        trusted_base=[],
-        level_text='',
-        level_note='',
-        technique='',
+        rule='one case = one result value of BurndownAnalysis / DevsAnalysis / CouplesAnalysis (built through the verif constructors '
+             'leaves.VerifC17New*Result, unexported fields included) or one bare matrix. Observed on the real code: Serialize(result, true, w) '
+             '(ok / error / panic), the written bytes re-read with gogo proto.Unmarshal as the protobuf message, Deserialize(bytes) and the '
+             'decoded result, Serialize(result, false, w) parsed strictly into the token grid of every PrintMatrix block; for bare matrices '
+             'the direct outputs of pb.ToBurndownSparseMatrix, pb.DenseToCompressedSparseRowMatrix and yaml.PrintMatrix. '
+             'Streams: ex-matrix / ex-global / ex-people = exhaustive small scopes; bd, dv, cp = random results inside the domain of the '
+             'theorems (1x1, single row/column, zero columns, all-zero rows, trailing zeros and trailing negatives, sparse rows, cells at '
+             '2^31 and 2^32-1, negative cells down to -2^62, empty file / people lists, empty string and unicode / quote / newline / '
+             'YAML-looking names, AuthorMissing keys, explicit zero map entries, int64 extremes in the people matrix, arbitrary tick sizes); '
+             'cp-loaded-dict = couples with the pseudo-developer named; bd-out, dv-out, cp-out = counters, keys and dimensions outside the '
+             'cast ranges (without key collisions); bd-malformed, cp-malformed = ragged or empty matrices, missing names, nil / empty people '
+             'matrix, ownership of unknown files, FilesLines of the wrong length; bd-loaded-dict and bd-no-ownership = the two known '
+             'deviations (C17-K1, C17-K2). Non-trivial: burndown = a non-zero global cell and more than one cell, file or developer; '
+             'devs = at least one (tick, developer) entry; couples = at least one file and one non-empty matrix row; matrix = non-zero and '
+             'more than one cell. Distinct = distinct input value.',
+        exhaustive_note='every matrix with 1..2 rows and 0..3 columns (2x3 only in the thorough tier) over the cells {-1, 0, 1, 2^32-1} through '
+                        'ToBurndownSparseMatrix, DenseToCompressedSparseRowMatrix and PrintMatrix; every burndown result whose global history '
+                        'is a matrix with 1..2 rows and 0..2 columns over the same cells; every 1x3 people matrix over {-1,0,1} and every 2x4 '
+                        'people matrix over {0,1} (thorough: {-1,0,1})',
+        assumptions=[
+            'gogo/protobuf proto.Marshal / proto.Unmarshal is external code: the theorems hold for every pair of functions with '
+            'unmarshal (marshal m) = Some m on the message type (hypothesis of C17_burndown, C17_devs, C17_couples); the real pair is '
+            'exercised on every harness case (the bytes are decoded both by Deserialize and, independently, into the message that is '
+            'compared with the model\'s message image). proto.Marshal refusing a nil element of a repeated field is modelled as the error '
+            'result of encode_burndown.',
+            'a Go string is the list of its bytes; names are valid UTF-8 in all in-domain streams (proto3 strings)',
+            'a Go map is modelled by its canonical association list (keys strictly increasing; bytewise order for strings); nil and empty '
+            'maps, nil and empty slices are identified, except BurndownResult.PeopleMatrix where the code tests for nil',
+            'Go int is 64 bit; time.Duration is an int64, so int64(tickSize) converts nothing',
+            'where int32 casts make two map keys collide the Go result depends on map iteration order; the out-of-range streams avoid '
+            'collisions and the theorems exclude them by the range hypotheses',
+            'known deviations, kept as known findings and excluded from the theorem by explicit hypotheses: C17-K1 (more developer names than '
+            'people histories: the extra names are dropped, C17_burndown_names_refuted) and C17-K2 (a file history without ownership table '
+            'gets an empty one, C17_burndown_ownership_refuted); C17_burndown_image states what the round trip computes in both cases',
+        ],
+        trusted_base=[
+            'hand-written Gallina model coq/theories/Results/PB.v of internal/pb/utils.go (ToBurndownSparseMatrix, '
+            'DenseToCompressedSparseRowMatrix, MapToCompressedSparseRowMatrix) and of serializeBinary / Deserialize in leaves/burndown.go, '
+            'leaves/devs.go, leaves/couples.go, and coq/theories/Results/Yaml.v of yaml.PrintMatrix and the matrix sequence of '
+            'BurndownAnalysis.serializeText; tied to the code by the replay of every harness case (message image, decoded result, '
+            'error/panic outcome, token grids)',
+            'gogo/protobuf (Marshal/Unmarshal and the generated pb.pb.go) is assumed, not modelled',
+            'add-only hook files /repo/leaves/verif_c17.go (constructors and getters for the unexported result fields) and '
+            '/repo/verifapi/c17/c17.go (re-exports of internal/pb, internal/yaml, plumbing.LineStats, identity.AuthorMissing); build tag verif',
+            'the strict parser of the burndown text format in harness/cmd/c17 (PrintMatrix blocks of two consecutive empty names cannot be '
+            'told apart in the text; such cases are counted as text_ambiguous_empty_names and not judged)',
+        ],
+        level_text='Coq theorems over ALL result values of the Gallina model: C17_sparse_codec (of_sparse (to_sparse m) = clamp m: negatives '
+                   'clamped, dropped trailing zero columns restored as zeros), C17_sparse_truncates, C17_csr_dense_codec and '
+                   'C17_csr_map_codec (csr_decode (csr_encode m) = m), C17_burndown (decode (encode r) = normalise r where normalise only '
+                   'clamps negative history cells; hypotheses: well-shaped, every file history has an ownership table, as many names as '
+                   'people histories, cells < 2^32, int32 counters), C17_burndown_image (what the round trip computes without the two '
+                   'alignment hypotheses) with C17_burndown_image_aligned, C17_burndown_names_refuted and C17_burndown_ownership_refuted '
+                   '(witnesses of the two known deviations), C17_devs (decode (encode r) = r, AuthorMissing <-> -1), C17_couples (decode '
+                   '(encode r) = r with PeopleFiles cut to len(reversedPeopleDict) rows: the pseudo-developer\'s touched-files list), '
+                   'C17_text_shape_matrix / C17_text_shape (every printed matrix has len(matrix) lines of len(last row) numbers), '
+                   'C17_text_total, C17_text_cells; all closed under the global context, with computed Examples inside and outside the '
+                   'ranges. The model is replayed against the real code on every run.',
+        level_note='Proved about the model, tied to the Go code by correspondence only. Modelled rather than verified: all Go code; the '
+                   'protobuf wire format is an assumption (identity on messages), so a defect of gogo/protobuf or of the generated code would '
+                   'only be seen by the harness. Outside the stated ranges the casts wrap silently (cells >= 2^32, counters/keys outside '
+                   'int32: C17_sparse_out_of_range, C17_burndown_outside, C17_devs_outside), an empty GlobalHistory makes Deserialize panic, '
+                   'an empty people history makes Marshal fail, FilesLines/Files of different lengths make Deserialize return an error, fewer '
+                   'PeopleFiles rows than names make Serialize panic (C17_couples_outside); none of these shapes is produced by Finalize. '
+                   'Only the tokens of the text format are modelled, not its padding, quoting or YAML validity (a developer or file with the '
+                   'empty name is printed without its block header). The text formats of devs and couples contain no PrintMatrix block; they '
+                   'are only run (no panic) on every case.',
+        technique='machine-checked proof in Coq over a Gallina model (canonical-map library with permutation/sortedness argument, codec '
+                  'lemmas composed per result type) + model/implementation correspondence replay with extracted model and oracles '
+                  '(decoded == extracted normalise(input); extracted text-shape check)',
     )
